@@ -9,6 +9,13 @@
 //	     all confs are loaded in order into ONE module by the REAL StaticRuleTable.Update (hook VerifServeHistory), then the
 //	     REAL staticFileHandler runs for product pr; the answer is judged against the last conf only.  Result goon | <resp>.
 //
+//	sff c=<fconf>~…;mt=<mconf>~…|-;pr=<product>;m=…;p=…;ae=<Accept-Encoding hex>;ec=…;tb=<facts>;x=<n>;t=<tree>      rule FILES
+//	     fconf = <ok|garbage|nover|nocfg>@<version hex>@<product hex>=<cond>.<cmd>.<nparams>.<root hex>.<default hex>/…|null&…
+//	     every fconf is written as a JSON rule file and loaded by the REAL loadConfData (StaticConfLoad … Update), every mconf as a
+//	     mime file by the REAL loadMimeType (hook VerifServeFiles); tb = mime.TypeByExtension facts (re-checked); x bit0/1 add
+//	     If-Modified-Since / Range headers (not supported by the module: must change nothing).  tree entries may be symlinks l:<path>:<target>.
+//	     Result <load verdicts>|goon or <load verdicts>|<status>;<ce>;<cl>;<Content-Type hex|->;<body>.
+//
 // exec materialises the tree in a private temp sandbox (cached per tree text; a sentinel and other files live
 // OUTSIDE the document root), builds the request (directly, or by the REAL bfe_http.ReadRequest when raw= is
 // given; the decoded path must then equal p) and runs the REAL mod_static createRespFromStaticFile (hook VerifServe).
@@ -17,7 +24,10 @@ package main
 
 import (
 	"bytes"
+	"encoding/json"
 	"fmt"
+	"mime"
+	"sort"
 	"io/ioutil"
 	"os"
 	"path"
@@ -42,6 +52,7 @@ func hx(s string) string { return vh.Hex([]byte(s)) }
 
 type entry struct {
 	dir     bool
+	link    bool // content = target, relative to the sandbox
 	path    string
 	content string
 }
@@ -54,6 +65,8 @@ func encTree(es []entry) string {
 	for _, e := range es {
 		if e.dir {
 			out = append(out, "d:"+hx(e.path)+":-")
+		} else if e.link {
+			out = append(out, "l:"+hx(e.path)+":"+hx(e.content))
 		} else {
 			out = append(out, "f:"+hx(e.path)+":"+hx(e.content))
 		}
@@ -93,6 +106,13 @@ func materialise(t string) (string, error) {
 			}
 			if p[0] == "d" {
 				if err := os.MkdirAll(full, 0755); err != nil {
+					return "", err
+				}
+			} else if p[0] == "l" {
+				if err := os.MkdirAll(filepath.Dir(full), 0755); err != nil {
+					return "", err
+				}
+				if err := os.Symlink(filepath.Join(d, string(c)), full); err != nil {
 					return "", err
 				}
 			} else {
@@ -171,9 +191,19 @@ func genTree(r *vh.Rand) {
 	opt(1, 2, "root2/secret.txt", false)
 	opt(1, 3, "other/dir", true)
 	opt(1, 4, "default.html", false)
+	// symbolic links below the root (targets are real, link-free places; some leave the root, some dangle)
+	if r.Chance(1, 4) {
+		es = append(es, entry{link: true, path: "root/lnk-out", content: "secret.txt"})
+	}
+	if r.Chance(1, 5) {
+		es = append(es, entry{link: true, path: "root/lnk-in", content: "root/index.html"})
+	}
+	if r.Chance(1, 6) {
+		es = append(es, entry{link: true, path: "root/lnkdir", content: []string{"other/dir", "rootx", "root/a"}[r.Intn(3)]})
+	}
 	if r.Chance(1, 6) { // one empty file
 		for i := range es {
-			if !es[i].dir && strings.HasPrefix(es[i].path, "root/") {
+			if !es[i].dir && !es[i].link && strings.HasPrefix(es[i].path, "root/") {
 				es[i].content = ""
 				break
 			}
@@ -186,7 +216,7 @@ func genTree(r *vh.Rand) {
 
 var segPool = []string{"a", "b.txt", "index.html", "file.txt", "dir", "..", "..", "..", ".", ".", "", "", "...", "..x", ".hidden",
 	"secret.txt", "root", "rootx", "root2", "sub", "other", "SB", "a b", "a%2eb", "%2e%2e", "back\\slash", "..\\secret.txt",
-	"..\\..", "\x00", "a\x00b", "\xff\xfe", "\xc3\xa9", "\xc3", long255, long256, "default.html", "b.txt.gz", "nosuch"}
+	"..\\..", "\x00", "a\x00b", "\xff\xfe", "\xc3\xa9", "\xc3", long255, long256, "default.html", "b.txt.gz", "nosuch", "lnk-out", "lnk-in", "lnkdir", "index.html.", "INDEX.HTML", "b.TXT"}
 
 func genPath(r *vh.Rand) string {
 	var segs []string
@@ -332,6 +362,146 @@ func genHistory(r *vh.Rand) string {
 		hx(method), hx("/"+p), ae, ec, curTree)
 }
 
+var aePool = []string{"", "gzip", "br", "gzip, br", "deflate, gzip, br", "GZIP", "Gzip,BR", "gzip;q=0", "gzip ;q=0", "gzip; q=0", "br ;q=0, gzip",
+	"gzip;q=1.0, br;q=0.5", "xgzip", "gzipx", "x-gzip", "identity", "*", "gzip,", ",gzip", "\tgzip\t", "deflate,br", "b r", "gzip ; q=0.0", "gzip ;Q=0",
+	"gzip ;q=0.5", "gzip ;q=1", "compress;gzip", "bro, brotli", "br;q=0", " br"}
+
+var fileRoots = []string{"root", "root", "root", "root/", "root/dir", "rootx", "root2", "other", "nosuch", "secret.txt", "root/sub"}
+var fileDefaults = []string{"", "", "", "index.html", "default.html", "../secret.txt", "dir", "nosuch.html", "sub/index.html"}
+
+func jsonStr(s string) string {
+	b, _ := json.Marshal(s)
+	return string(b)
+}
+
+func genFiles(r *vh.Rand) string {
+	n := r.Range(1, 3)
+	version := "v1"
+	var confs []string
+	for i := 0; i < n; i++ {
+		if r.Chance(2, 5) {
+			version = fmt.Sprintf("v%d", r.Range(1, 3))
+		}
+		flag := "ok"
+		if r.Chance(1, 12) {
+			flag = []string{"garbage", "nover", "nocfg"}[r.Intn(3)]
+		}
+		var ps []string
+		for _, p := range histProducts {
+			if !r.Chance(3, 4) {
+				continue
+			}
+			if r.Chance(1, 25) {
+				ps = append(ps, hx(p)+"=null")
+				continue
+			}
+			var rs []string
+			for k := r.Range(1, 2); k > 0; k-- {
+				cond, cmd, np := 1, 0, 2
+				if r.Chance(1, 4) {
+					cond = 0
+				}
+				if r.Chance(1, 20) {
+					cond = r.Range(2, 3)
+				}
+				if r.Chance(1, 20) {
+					cmd = r.Range(1, 3)
+				}
+				if r.Chance(1, 20) {
+					np = []int{0, 1, 3}[r.Intn(3)]
+				}
+				rs = append(rs, fmt.Sprintf("%d.%d.%d.%s.%s", cond, cmd, np, hx(fileRoots[r.Intn(len(fileRoots))]), hx(fileDefaults[r.Intn(len(fileDefaults))])))
+			}
+			ps = append(ps, hx(p)+"="+strings.Join(rs, "/"))
+		}
+		body := "_"
+		if len(ps) > 0 {
+			body = strings.Join(ps, "&")
+		}
+		confs = append(confs, flag+"@"+hx(version)+"@"+body)
+	}
+	mt := "-"
+	if r.Chance(4, 5) {
+		var ms []string
+		for k := r.Range(1, 2); k > 0; k-- {
+			flag, ver := "ok", "m1"
+			if r.Chance(1, 10) {
+				flag = "garbage"
+			}
+			if r.Chance(1, 10) {
+				ver = ""
+			}
+			var es []string
+			for _, e := range [][2]string{{".html", "text/html"}, {".TXT", "text/plain; charset=utf-8"}, {".gz", "application/gzip"}, {".hidden", ""}, {".x", "x/" + fmt.Sprint(k)}, {"", "no/ext"}, {".Html", "text/upper"}} {
+				if r.Chance(1, 2) {
+					es = append(es, hx(e[0])+":"+hx(e[1]))
+				}
+			}
+			// keys must stay distinct after lower-casing (Go map order would decide otherwise)
+			seen := map[string]bool{}
+			var es2 []string
+			for _, e := range es {
+				k, _ := vh.UnHex(strings.SplitN(e, ":", 2)[0])
+				lk := strings.ToLower(string(k))
+				if !seen[lk] {
+					seen[lk] = true
+					es2 = append(es2, e)
+				}
+			}
+			body := "_"
+			if len(es2) > 0 {
+				body = strings.Join(es2, ",")
+			}
+			ms = append(ms, flag+"@"+hx(ver)+"@"+body)
+		}
+		mt = strings.Join(ms, "~")
+	}
+	e := curFiles[r.Intn(len(curFiles))]
+	p := e.path
+	for _, root := range []string{"root/sub/", "root/dir/", "root/", "rootx/", "root2/", "other/"} {
+		if strings.HasPrefix(p, root) {
+			p = p[len(root):]
+			break
+		}
+	}
+	switch r.Intn(10) {
+	case 0:
+		p = "../" + p
+	case 1:
+		p = strings.ToUpper(p)
+	case 2:
+		p += "."
+	case 3:
+		p = []string{"", "dir", "dir/", "nosuch.zzz", "lnk-out", "lnkdir/index.html", "a b", ".hidden", "x.Html", "noext"}[r.Intn(10)]
+	}
+	p = "/" + p
+	method := "GET"
+	if r.Chance(1, 8) {
+		method = []string{"HEAD", "POST"}[r.Intn(2)]
+	}
+	ae := aePool[r.Intn(len(aePool))]
+	ec := 1
+	if r.Chance(1, 5) {
+		ec = 0
+	}
+	// TypeByExtension facts for every extension the handler may consult
+	exts := map[string]bool{filepath.Ext(p): true}
+	for _, d := range fileDefaults {
+		exts[filepath.Ext(d)] = true
+	}
+	var keys []string
+	for k := range exts {
+		keys = append(keys, k)
+	}
+	sort.Strings(keys)
+	var facts []string
+	for _, k := range keys {
+		facts = append(facts, hx(k)+":"+hx(mime.TypeByExtension(k)))
+	}
+	return fmt.Sprintf("sff c=%s;mt=%s;pr=%s;m=%s;p=%s;ae=%s;ec=%d;tb=%s;x=%d;t=%s", strings.Join(confs, "~"), mt,
+		hx(histProducts[r.Intn(len(histProducts))]), hx(method), hx(p), hx(ae), ec, strings.Join(facts, ","), r.Intn(4), curTree)
+}
+
 var cleanAlpha = []byte{'/', '/', '.', '.', 'a', 'b', '\\', 0, 0xff}
 
 func gen(r *vh.Rand) string {
@@ -349,6 +519,9 @@ func gen(r *vh.Rand) string {
 	curLeft--
 	if r.Chance(1, 5) {
 		return genHistory(r)
+	}
+	if r.Chance(1, 4) {
+		return genFiles(r)
 	}
 	method := "GET"
 	switch r.Intn(12) {
@@ -516,7 +689,233 @@ func execHistory(op string) string {
 	return render(resp)
 }
 
+var confDir string // temp dir for rule / mime files
+var confSeq int
+
+func writeConf(text string) (string, error) {
+	if confDir == "" {
+		d, err := ioutil.TempDir("", "c50-conf-")
+		if err != nil {
+			return "", err
+		}
+		confDir = d
+	}
+	confSeq++
+	p := filepath.Join(confDir, fmt.Sprintf("f%d.data", confSeq))
+	return p, ioutil.WriteFile(p, []byte(text), 0644)
+}
+
+func execFiles(op string) string {
+	f := strings.Split(op[4:], ";")
+	if len(f) != 10 {
+		return "bad-op"
+	}
+	cs, ok0 := kv(f[0], "c")
+	mts, okm := kv(f[1], "mt")
+	get := func(i int, k string) ([]byte, bool) {
+		v, ok := kv(f[i], k)
+		if !ok {
+			return nil, false
+		}
+		return vh.UnHex(v)
+	}
+	product, ok1 := get(2, "pr")
+	method, ok2 := get(3, "m")
+	p, ok3 := get(4, "p")
+	ae, ok4 := get(5, "ae")
+	ecs, ok5 := kv(f[6], "ec")
+	tbs, ok6 := kv(f[7], "tb")
+	xs, ok7 := kv(f[8], "x")
+	tree, ok8 := kv(f[9], "t")
+	if !(ok0 && okm && ok1 && ok2 && ok3 && ok4 && ok5 && ok6 && ok7 && ok8) {
+		return "bad-op"
+	}
+	x, err := strconv.Atoi(xs)
+	if err != nil {
+		return "bad-op"
+	}
+	sb, err := materialise(tree)
+	if err != nil {
+		return "err:sandbox"
+	}
+	if tbs != "_" {
+		for _, fact := range strings.Split(tbs, ",") {
+			q := strings.Split(fact, ":")
+			if len(q) != 2 {
+				return "bad-op"
+			}
+			e, k1 := vh.UnHex(q[0])
+			t, k2 := vh.UnHex(q[1])
+			if !k1 || !k2 {
+				return "bad-op"
+			}
+			if mime.TypeByExtension(string(e)) != string(t) {
+				return "err:fact"
+			}
+		}
+	}
+	var rulePaths, mimePaths []string
+	for _, c := range strings.Split(cs, "~") {
+		q := strings.Split(c, "@")
+		if len(q) != 3 {
+			return "bad-op"
+		}
+		ver, ok := vh.UnHex(q[1])
+		if !ok {
+			return "bad-op"
+		}
+		var text string
+		if q[0] == "garbage" {
+			text = `{"Version": "v1", "Config": {`
+		} else {
+			var prods []string
+			if q[2] != "_" {
+				for _, x := range strings.Split(q[2], "&") {
+					pr := strings.SplitN(x, "=", 2)
+					if len(pr) != 2 {
+						return "bad-op"
+					}
+					pn, ok := vh.UnHex(pr[0])
+					if !ok {
+						return "bad-op"
+					}
+					if pr[1] == "null" {
+						prods = append(prods, jsonStr(string(pn))+": null")
+						continue
+					}
+					var rules []string
+					for _, rtxt := range strings.Split(pr[1], "/") {
+						z := strings.Split(rtxt, ".")
+						if len(z) != 5 {
+							return "bad-op"
+						}
+						root, k1 := vh.UnHex(z[3])
+						df, k2 := vh.UnHex(z[4])
+						np, e3 := strconv.Atoi(z[2])
+						if !k1 || !k2 || e3 != nil {
+							return "bad-op"
+						}
+						cond := map[string]string{"0": missCond, "1": hitCond, "2": "", "3": "req_host_in("}[z[0]]
+						params := []string{sb + "/" + string(root), string(df), "extra"}
+						if np < 0 || np > 3 {
+							return "bad-op"
+						}
+						var pj []string
+						for _, v := range params[:np] {
+							pj = append(pj, jsonStr(v))
+						}
+						action := ""
+						switch z[1] {
+						case "0":
+							action = `, "Action": {"Cmd": "BROWSE", "Params": [` + strings.Join(pj, ", ") + `]}`
+						case "1":
+							action = `, "Action": {"Cmd": "browse", "Params": [` + strings.Join(pj, ", ") + `]}`
+						case "2":
+							action = `, "Action": {"Params": [` + strings.Join(pj, ", ") + `]}`
+						}
+						rules = append(rules, `{"Cond": `+jsonStr(cond)+action+`}`)
+					}
+					prods = append(prods, jsonStr(string(pn))+": ["+strings.Join(rules, ", ")+"]")
+				}
+			}
+			var fields []string
+			if q[0] != "nover" {
+				fields = append(fields, `"Version": `+jsonStr(string(ver)))
+			}
+			if q[0] != "nocfg" {
+				fields = append(fields, `"Config": {`+strings.Join(prods, ", ")+`}`)
+			}
+			text = "{" + strings.Join(fields, ", ") + "}"
+		}
+		path, err := writeConf(text)
+		if err != nil {
+			return "err:conf"
+		}
+		rulePaths = append(rulePaths, path)
+	}
+	if mts != "-" {
+		for _, c := range strings.Split(mts, "~") {
+			q := strings.Split(c, "@")
+			if len(q) != 3 {
+				return "bad-op"
+			}
+			ver, ok := vh.UnHex(q[1])
+			if !ok {
+				return "bad-op"
+			}
+			text := `{"Version": "m", "Config": [`
+			if q[0] != "garbage" {
+				var es []string
+				if q[2] != "_" {
+					for _, e := range strings.Split(q[2], ",") {
+						z := strings.Split(e, ":")
+						if len(z) != 2 {
+							return "bad-op"
+						}
+						a, k1 := vh.UnHex(z[0])
+						b, k2 := vh.UnHex(z[1])
+						if !k1 || !k2 {
+							return "bad-op"
+						}
+						es = append(es, jsonStr(string(a))+": "+jsonStr(string(b)))
+					}
+				}
+				text = `{"Version": ` + jsonStr(string(ver)) + `, "Config": {` + strings.Join(es, ", ") + `}}`
+			}
+			path, err := writeConf(text)
+			if err != nil {
+				return "err:conf"
+			}
+			mimePaths = append(mimePaths, path)
+		}
+	}
+	hreq, err := bfe_http.NewRequest("GET", "http://"+hitHost+"/", nil)
+	if err != nil {
+		return "err:newrequest"
+	}
+	hreq.Method = string(method)
+	hreq.URL.Path = string(p)
+	if len(ae) > 0 {
+		hreq.Header.Set("Accept-Encoding", string(ae))
+	}
+	if x&1 == 1 {
+		hreq.Header.Set("If-Modified-Since", "Mon, 02 Jan 2096 15:04:05 GMT")
+	}
+	if x&2 == 2 {
+		hreq.Header.Set("Range", "bytes=0-0")
+	}
+	req := new(bfe_basic.Request)
+	req.Session = new(bfe_basic.Session)
+	req.Route.Product = string(product)
+	req.HttpRequest = hreq
+	loads, ret, resp := mod_static.VerifServeFiles(ecs == "1", rulePaths, mimePaths, req)
+	for _, pth := range append(rulePaths, mimePaths...) {
+		os.Remove(pth)
+	}
+	if resp == nil {
+		if ret == bfe_module.BfeHandlerGoOn {
+			return loads + "|goon"
+		}
+		return "err:ret"
+	}
+	if ret != bfe_module.BfeHandlerResponse {
+		return "err:ret"
+	}
+	ct := "-"
+	if v, ok := resp.Header["Content-Type"]; ok && len(v) > 0 {
+		ct = vh.Hex([]byte(v[0]))
+	}
+	q := strings.Split(render(resp), ";")
+	if len(q) != 4 {
+		return "err:render"
+	}
+	return loads + "|" + strings.Join([]string{q[0], q[1], q[2], ct, q[3]}, ";")
+}
+
 func exec(op string) string {
+	if strings.HasPrefix(op, "sff ") {
+		return execFiles(op)
+	}
 	if strings.HasPrefix(op, "sfh ") {
 		return execHistory(op)
 	}
@@ -638,6 +1037,9 @@ func main() {
 	defer func() {
 		if base != "" {
 			os.RemoveAll(base)
+		}
+		if confDir != "" {
+			os.RemoveAll(confDir)
 		}
 	}()
 	vh.Main(gen, exec)
